@@ -97,6 +97,7 @@ type W3Run struct {
 	baseHit map[int]int
 	settled bool
 	lockHeld map[int]bool // nodes whose catalogue locks were held at a quiescent instant
+	firstPermanentCrash uint64 // event stamp of the first crash in this run (0: none)
 }
 
 func vecOf(id, ver, dim int) []float32 {
@@ -558,6 +559,9 @@ func (r *W3Run) execOps() {
 				s.pump()
 				s.stopNode(s.nodes[op.Node-1], true)
 				s.out.Stat("fault_crash_at_quiescence", 1)
+				if r.firstPermanentCrash == 0 {
+					r.firstPermanentCrash = s.stamp()
+				}
 			}
 		case "restart":
 			if op.Node >= 1 && op.Node <= len(s.nodes) && !s.nodes[op.Node-1].alive {
@@ -602,6 +606,31 @@ func (r *W3Run) execOps() {
 			s.blocked = map[[2]uint64]bool{}
 			s.logf("heal")
 			s.out.Stat("fault_heal", 1)
+		case "settle":
+			r.waitAll(20 * time.Second)
+			if !r.settle() {
+				return
+			}
+		case "removenode":
+			if op.Node >= 1 && op.Node <= len(s.nodes) && s.nodes[op.Node-1].alive && op.A >= 1 && op.A <= len(s.nodes) {
+				via, target := s.nodes[op.Node-1], s.nodes[op.A-1]
+				h := &histOp{op: op, idx: i}
+				r.hist = append(r.hist, h)
+				h.cop = s.client(via, fmt.Sprintf("remove-node n%d", target.idx), 5*time.Second, func(ctx context.Context, n *simNode) (interface{}, error) {
+					return n.svcNM.RemoveNode(ctx, &pb.Node{Id: target.id})
+				})
+				s.runUntil(func() bool { return h.cop.done }, 8*time.Second)
+				h.done, h.err = h.cop.done, h.cop.err
+				s.out.Stat("node_removed_from_membership", 1)
+			}
+		case "pause-proposers":
+			// hook H5: hold every proposer between Propose and its wait for 300 simulated ms
+			s.pauseHook = func(nodeId uint64, partition uuid.UUID, point string) {
+				s.mu.Lock()
+				s.paused++
+				s.mu.Unlock()
+				time.Sleep(300 * time.Millisecond)
+			}
 		}
 		if i%4 == 3 {
 			r.pendingOps()
@@ -756,6 +785,9 @@ func runScenario(c *W3Case, prop string, out *Outcome, wantLog bool, before func
 			out.TraceHash = s.h
 			out.Log = s.log
 			out.Stat("driver_steps", int64(s.steps))
+			if s.paused > 0 {
+				out.Stat("proposers_paused", int64(s.paused))
+			}
 			s.close()
 		}()
 		r := &W3Run{s: s, c: c, out: out, ds: map[int]*dsInfo{}, prop: prop, baseHit: map[int]int{}, lockHeld: map[int]bool{}}
